@@ -688,8 +688,12 @@ func init() {
 			},
 		},
 		{
+			// F37 (fixed in /repo 19c5b32; regression): a transfer that changes the
+			// uri to 257 bytes.  The repaired chain refuses it and everything round-trips;
+			// should it ever be accepted again the token carries a uri that nft
+			// ValidateGenesis refuses and C12_Accepted fails on every later export.
+			// The longest accepted uri (256) is then set by a transfer.
 			name:     "nft_uri_transfer",
-			pending:  "nft: MsgTransferNFT stores a token uri longer than 256 bytes; ValidateGenesis refuses the export (invalid token uri)",
 			accounts: map[string]string{"a": rich, "b": rich},
 			run: func(c *chain.Chain) {
 				uri := ""
@@ -698,21 +702,61 @@ func init() {
 				}
 				keep := nfttypes.DoNotModify
 				blk(c, tx("a", &nfttypes.MsgIssueDenom{Id: "class1", Name: "c", Sender: addr(c, "a")}))
-				blk(c, tx("a", &nfttypes.MsgMintNFT{Id: "tok1", DenomId: "class1", Sender: addr(c, "a"), Recipient: addr(c, "a")}))
-				blk(c, tx("a", &nfttypes.MsgTransferNFT{Id: "tok1", DenomId: "class1", Name: keep, URI: uri, Data: keep, UriHash: keep,
+				blk(c, tx("a", &nfttypes.MsgMintNFT{Id: "tok1", DenomId: "class1", Sender: addr(c, "a"), Recipient: addr(c, "a")}),
+					tx("a", &nfttypes.MsgMintNFT{Id: "tok2", DenomId: "class1", Sender: addr(c, "a"), Recipient: addr(c, "a")}))
+				soft(c, tx("a", &nfttypes.MsgTransferNFT{Id: "tok1", DenomId: "class1", Name: keep, URI: uri, Data: keep, UriHash: keep,
+					Sender: addr(c, "a"), Recipient: addr(c, "b")}))
+				blk(c)
+				blk(c, tx("a", &nfttypes.MsgTransferNFT{Id: "tok2", DenomId: "class1", Name: keep, URI: uri[1:], Data: keep, UriHash: keep,
 					Sender: addr(c, "a"), Recipient: addr(c, "b")}))
 				blk(c)
 			},
 		},
 		{
+			// F38 (fixed in /repo 462c5ca; regression): the authority moves the token
+			// issue fee to a coin that is not an issued token.  The repaired chain
+			// refuses the message; if it is accepted again token InitGenesis panics
+			// 'Token btc does not exist' on every later export.  The fee is then moved
+			// to an issued token (accepted before and after the repair).
 			name:     "token_fee_denom",
-			pending:  "token: MsgUpdateParams accepts an issue fee in a coin that is not an issued token; InitGenesis panics 'Token btc does not exist'",
 			accounts: map[string]string{"a": rich},
 			run: func(c *chain.Chain) {
-				blk(c)
+				blk(c, tx("a", &tokenv1.MsgIssueToken{Symbol: "kitty", Name: "Kitty Token", Scale: 0, MinUnit: "kitty",
+					InitialSupply: 11, MaxSupply: 100, Mintable: true, Owner: addr(c, "a")}))
 				p := c.K.Token.GetParams(c.Ctx())
 				p.IssueTokenBaseFee = sdk.NewInt64Coin("btc", 10)
+				ok, _, log := c.Authority(&tokenv1.MsgUpdateParams{Authority: chain.GovAuthority(), Params: p})
+				if verbose {
+					fmt.Printf("[scenario] issue fee in btc accepted=%v %s\n", ok, short(log, 200))
+				}
+				blk(c)
+				blk(c)
+				p.IssueTokenBaseFee = sdk.NewInt64Coin("kitty", 10)
 				must(c, &tokenv1.MsgUpdateParams{Authority: chain.GovAuthority(), Params: p})
+				blk(c)
+				blk(c)
+			},
+		},
+		{
+			// F39 (fixed in /repo 8afa321; regression): a feed created with, and a feed
+			// edited to, a provider string that is no address.  The repaired chain
+			// refuses both messages; before the repair the empty address was stored in
+			// the feed's request context, which service ValidateGenesis refuses.  A
+			// proper feed lives next to the attempts.
+			name:     "oracle_bad_provider",
+			accounts: map[string]string{"a": rich, "p": rich},
+			run: func(c *chain.Chain) {
+				defineAndBind(c, "price", "p")
+				feed := func(name string, provs ...string) chain.Tx {
+					return tx("a", &oracletypes.MsgCreateFeed{FeedName: name, LatestHistory: 3, Description: "d", Creator: addr(c, "a"),
+						ServiceName: "price", Providers: provs, Input: svcInput, Timeout: 2, ServiceFeeCap: coins("50stake"),
+						RepeatedFrequency: 3, AggregateFunc: "avg", ValueJsonPath: "price", ResponseThreshold: 1})
+				}
+				blk(c, feed("good", addr(c, "p")))
+				soft(c, feed("garbage", addr(c, "p"), "not-an-address"), feed("empty", ""))
+				blk(c)
+				soft(c, tx("a", &oracletypes.MsgEditFeed{FeedName: "good", Description: "edited", Providers: []string{"cosmos1garbage"},
+					ServiceFeeCap: coins("50stake"), ResponseThreshold: 1, Creator: addr(c, "a")}))
 				blk(c)
 				blk(c)
 			},
